@@ -13,7 +13,7 @@ from trie.utils.db import ScratchDB
 
 from ..core import HarnessError, Stats, Violation, deep, hx, unhx
 from ..hworld import in_handler
-from ..simdb import SimDB, make_store
+from ..simdb import SimDB, make_store, STORE_FLAVOURS
 
 ID = "C17"
 LEVEL = "fault_enumeration"
@@ -418,7 +418,7 @@ def generate(rng):
         ops = [({"op": "write", "k": hx(k), "v": hx(rng.choice(vals))} if rng.random() < 0.7 else {"op": "delete", "k": hx(k)}) for k in bulk]
     suffix = [{"op": "settle", "keys": [hx(k) for k in keys], "dd": int(rng.random() < 0.5)}]
     suffix += [c for c in gen_ops(rng, keys, vals, 3) if c["op"] in ("read", "contains")]
-    base = {"cfg": {"initial": initial, "store": rng.choice(["min", "min", "dict"])}, "prefix": prefix, "dd": dd, "noarg": int(rng.random() < 0.4), "ops": ops, "suffix": suffix}
+    base = {"cfg": {"initial": initial, "store": rng.choice(STORE_FLAVOURS)}, "prefix": prefix, "dd": dd, "noarg": int(rng.random() < 0.4), "ops": ops, "suffix": suffix}
     # the client may be inside an except clause when it makes a call or leaves the block
     p_hdl = rng.choice([0.0, 0.0, 0.2, 0.5])
     if p_hdl:
